@@ -13,7 +13,7 @@ RULE = ("(LOCUS: each of the twelve molecule types or none, topology / division 
         "blocks written or left out; extra keyword blocks in any of the 7 slots between LOCUS and FEATURES) "
         "abstract records laid out by the independent writer of Spec/GbLayout.lean: sequence 1..2000 letters (quick; a few to 2*10^4) "
         "/ 1..10^5 (thorough), every molecule type x topology x division, LOCUS gaps 1..12 blanks, lengths of 1-6 digits, "
-        "0..40 features with 0..8 qualifiers (values over printable ASCII without the double quote, with '/', '=', '//', leading/trailing "
+        "0..40 features with 0..8 qualifiers (values over printable ASCII, a double quote only inside, with '/', '=', '//', leading/trailing "
         "blanks, long values wrapped at widths 20..79 or at random blanks, /translation cut mid-token), features without qualifiers, "
         "locations on 1..6 lines, 0..5 references with optional AUTHORS/TITLE/JOURNAL/PUBMED/REMARK, 0..3 extra keyword blocks, "
         "1..5 records, with/without final newline, with/without the 10-line header, through Parse/ParseMulti/ParseFlat and the Read* "
@@ -23,7 +23,11 @@ TRUSTED_BASE = ["Spec/GbLayout.lean: the independent writer (NCBI flat-file colu
                 "scanners standing for the four regular expressions of parseLocus/getSequence (checked by correspondence only)",
                 "ASCII restriction: Go rune/byte behaviour on non-ASCII input is outside the model"]
 ASSUMPTIONS = ["inputs are ASCII",
-               "location text is one INSDC-shaped expression (atom or operator(loc,...), complement with one operand): texts with unbalanced or stray parentheses are outside the domain (Spec isLocText)",
+               "location text is one INSDC-shaped expression (atom or operator(loc,...), complement with exactly one operand — a restriction of "
+               "the check's grammar, Go reads more): texts with unbalanced or stray parentheses are outside the domain (Spec isLocText); "
+               "on those (e.g. a truncated `join(1..2,`) genbank.Parse PANICS in parseLocation (slice bounds) — the driver mirrors it with "
+               "C02's parseLocation model (panic parity on every case), but that isLocText texts never panic is checked on every generated "
+               "case only, not proved",
                "extra keyword blocks have pairwise distinct keywords (Meta.Other is a map; GenBank has one block per keyword); SOURCE is always followed by its mandatory ORGANISM line",
                "parseLocation (property C02) does not panic on the location texts of the domain; C01 compares the location text only",
                "ioutil.ReadFile / gzip return the bytes written (Read* wrappers are checked by correspondence only)"]
@@ -229,10 +233,12 @@ def record(r, tier, big=False, trap=0.001, small=False, repeat=False):
     cm = r.random()
     if cm < 0.4 or nex == 0:
         cuts = []
-    elif cm < 0.6:
+    elif cm < 0.55:
         cuts = [0, 0, 0, r.randint(1, nex)]
+    elif cm < 0.7:
+        cuts = [0, 0, 0, 0, 0, 0, r.randint(1, nex)]          # the last ones after the feature table (CONTIG)
     else:
-        cuts = [r.choice([0, 0, 1, 2]) for _ in range(6)]
+        cuts = [r.choice([0, 0, 1, 2]) for _ in range(7)]
     omit = "".join(r.choice("01") for _ in range(5))
     f += [nats(cuts), omit]
     empties = r.random() < 0.25
@@ -262,8 +268,9 @@ def record(r, tier, big=False, trap=0.001, small=False, repeat=False):
         qkeys = r.sample(QKEYS, nq)
         if nq and r.random() < 0.3:
             qkeys[r.randrange(nq)] = "translation"
-        if repeat and nq >= 2 and r.random() < 0.5:
-            qkeys[r.randrange(nq)] = qkeys[r.randrange(nq)]      # a repeated key (known finding)
+        if repeat and nq >= 2 and r.random() < 0.7:
+            i, j = r.sample(range(nq), 2)
+            qkeys[i] = qkeys[j]                                   # a repeated key (known finding)
         f += [key, loc, nats(lb), str(nq)]
         for qk in qkeys:
             st = r.choice([0, 0, 0, 1, 1, 2])
@@ -346,8 +353,12 @@ def cases(seed, tier):
     for k, mode, fnl in ((5, "multi", True), (5, "multi", False), (5, "flat", True), (5, "readmulti", True), (4, "multi", True), (6, "flat", False)):
         yield mk(mode, fnl, mode.startswith("flat"), [record(r, tier, small=True) for _ in range(k)])
     # repeated qualifier keys (known finding C01-repeated-qualifier-key)
-    for i in range(12 if tier == "quick" else 200):
-        yield mk("parse", True, False, [record(r, tier, small=True, trap=0.0, repeat=True)])
+    for i in range(16 if tier == "quick" else 240):
+        mode = ["parse", "read", "multi", "flat", "readmulti", "readflatgz"][i % 6]
+        nrec = 1 if mode in ("parse", "read") else r.randint(1, 3)
+        recs = [record(r, tier, small=True, trap=0.0, repeat=(k == 0)) for k in range(nrec)]
+        r.shuffle(recs)
+        yield mk(mode, i % 2 == 0, mode.startswith("flat") or mode.startswith("readflat"), recs)
     # two-digit (and one-digit) lengths after gaps of two and more blanks
     for n in (7, 10, 20, 99):
         for g in (1, 2, 17):
@@ -426,8 +437,8 @@ LEVEL_TEXT = ("(Layout family widened after review: empty standard blocks writte
               "parse_layout_last_wins saying exactly what is kept.) "
               "Every clause is a kernel-checked theorem about the model for ALL abstract records in the domain predicate wf and ALL "
               "layout choices (no bound on sequence length below 10^8, number of features, qualifiers, references, records, line "
-              "widths): origin_recovered, locus_recovered (every name, every number of digits, 4 molecule types, 2 topologies, "
-              "18 divisions, all gaps), sublines_rejoined/block_rejoined, source_organism_recovered, reference_recovered, "
+              "widths): origin_recovered, locus_recovered (every name, a stated length of any number of digits or none, each of the 12 "
+              "molecule types or none, topology / division / date or none, all gaps), sublines_rejoined/block_rejoined, source_organism_recovered, reference_recovered, "
               "features_recovered (multi-line locations with and without qualifiers, values with '/', '=', wrapped before '/', "
               "/translation cut mid-token), parse_layout (composition on the text, with and without final newline), "
               "parseMulti_layout + parseMulti_eq_parse_each (k records -> k results, each = parsing the record alone), "
